@@ -28,7 +28,7 @@ REAL_VS_STUB = {"real": ["bounds (all registered computers)", "norms", "exploita
 ASSUMPTIONS = ["exact mode: interval monotonicity compared exactly; float mode: tolerance 1e-9*max(1,max|v|)",
                "exploitability is a cancelling sum: tolerance 1e-9*scale*2^n in both modes; norms 1e-12 relative",
                "hidden game's class is re-checked by the harness's independent predicates"]
-PROBES = ["full_knowledge_reached", "torn_step_recovered", "probe_between_reveals", "sam_computer", "sa_computer",
+PROBES = ["second_episode_on_same_object", "full_knowledge_reached", "torn_step_recovered", "probe_between_reveals", "sam_computer", "sa_computer",
           "env_path", "object_path", "registry_game", "heavy_sam_computer"]
 TIERS = {
     "quick": {"runs": 30000, "wall": 40, "batch": 16, "shrink_s": 40},
@@ -117,19 +117,45 @@ def run(sim: Sim) -> None:
     sim.probe(path + "_path")
     ctx = {"n": n, "computer": comp_name, "class": cls, "exact": exact, "path": path}
     sim.config.update(ctx)
-    order = sim.shuffled(list(range(len(games.explorable_ids(n)))), "reveal-order")
     prelude.warm_process(sim)
     explorable = games.explorable_ids(n)
+    src = em.ListSource([values], n)
     if path == "env":
         with sim.guard("C07.operation_raised"):
-            env = em.make_env(n, comp_name, em.ListSource([values], n), GAPS[sim.pick(sorted(GAPS), "env-gap")], None)
+            env = em.make_env(n, comp_name, src, GAPS[sim.pick(sorted(GAPS), "env-gap")], None)
         game = env.incomplete_game
+        h = None
     else:
+        env = None
         h = gm.GameHarness(sim, n, comp_name, values)
         with sim.guard("C07.operation_raised"):
             h.reset_minimal()
             h.compute()
         game = h.g
+    episodes = 1 + sim.choose(3, "episodes")
+    for ep in range(episodes):
+        if ep > 0:  # the same long-lived object plays another hidden game
+            values, exact = games.draw_game(sim, n, cls)
+            scale = max(1.0, float(np.max(np.abs(values))))
+            ctx = {**ctx, "exact": exact, "episode": ep}
+            sim.op("new-episode", ep)
+            sim.probe("second_episode_on_same_object")
+            with sim.guard("C07.operation_raised"):
+                if path == "env":
+                    src.values_list = [np.array(values, dtype=np.float64)]
+                    env.reset()
+                else:
+                    h.values = values
+                    h.reset_minimal()
+                    h.compute()
+        order = sim.shuffled(list(range(len(explorable))), "reveal-order")
+        if ep < episodes - 1 and sim.flip(1, 2, "partial-episode"):
+            order = order[:1 + sim.choose(len(order), "episode-length")]
+        _episode(sim, n, comp_name, path, env, h, game, values, exact, scale, GAPS, order, explorable, ctx,
+                 full=len(order) == len(explorable))
+
+
+def _episode(sim: Sim, n, comp_name, path, env, h, game, values, exact, scale, GAPS, order, explorable, ctx, full) -> None:
     old = games.arrays(game)
     g_old = gaps_of(sim, game, GAPS, scale, ctx)
     revealed: list[int] = []
@@ -197,6 +223,8 @@ def run(sim: Sim) -> None:
         compare_step(sim, n, old, new, g_old, g_new, cid, exact, scale, ctx)
         sim.state(n, comp_name, mask_before, cid)
         old, g_old = new, g_new
+    if not full:
+        return
     # everything revealed: every gap is zero
     sim.probe("full_knowledge_reached")
     sim.checked()
